@@ -1,8 +1,22 @@
-From Coq Require Import List ZArith QArith Qabs Qround Bool Lia Lqa Field.
+From Coq Require Import List ZArith QArith Qabs Bool Lia Lqa Field.
+From PV Require Import lib.Sx lib.Str lib.Result model.Geometry model.Positioning spec.SpecGeom spec.SpecPos.
+From PV Require Import proofs.GeomStr proofs.GeomEq proofs.GeomParse proofs.GeomLang proofs.GeomFacts.
+Import ListNotations.
 Open Scope Z_scope.
-Goal forall n, ((inject_Z n - inject_Z n) ?= (1 # 2))%Q = Lt.
-intros. rewrite <- Qlt_alt. Show. 
-lra.
+Lemma given_some : forall d q, given d = Some q -> d = Some q /\ ~ (q == 0)%Q.
+Proof.
+  intros [x|] q H; cbn [given] in H; [|discriminate]. destruct (Qeq_bool x 0) eqn:E; [discriminate|].
+  inversion H; subst. split; [reflexivity|]. intros K. apply Qeq_bool_iff in K. congruence.
 Qed.
-Goal forall q f, (q - inject_Z f ?= 1#2)%Q = Eq -> (q - inject_Z f == 1#2)%Q.
-intros. rewrite <- Qeq_alt in H. exact H. Qed.
+Definition axis_call (a : size) (hz : bool) (d : option Q) : result size :=
+  size_as_pct a (if hz then d else None) (if hz then None else d).
+Goal forall a hz d,
+  match spec_pct a hz (given d) with
+  | Some v => exists z, axis_call a hz d = Ok z /\ s_unit z = PCT /\ (s_val z == v)%Q
+  | None => axis_call a hz d = Err ERelativization
+  end.
+Proof.
+  intros [v u] hz d. unfold axis_call, spec_pct, size_as_pct. cbn [s_unit s_val].
+  destruct u.
+  - destruct (given d) as [q|] eqn:G.
+    + destruct (given_some _ _ G) as [-> Hq]. destruct hz; cbn [given]. Show.
